@@ -709,6 +709,12 @@ int main(int argc, char** argv)
       yr_compiler_set_atom_quality_table(compilers[c], t.p, (int) (t.n / 5), (unsigned char) atoi(tok[3]));
       fprintf(out, "{\"e\":\"QTable\",\"cid\":%d,\"entries\":%d}\n", c, (int) (t.n / 5));
     }
+    else if (!strcmp(op, "strict"))
+    {
+      NEED(2);
+      int c = slot(tok[1], MAXSLOT);
+      if (compilers[c]) compilers[c]->strict_escape = atoi(tok[2]) != 0;
+    }
     else if (!strcmp(op, "cdefine")) { NEED(4); define_on("c", slot(tok[1], MAXSLOT), tok[2], tok[3], tok[4]); }
     else if (!strcmp(op, "rdefine")) { NEED(4); define_on("r", slot(tok[1], MAXSLOT), tok[2], tok[3], tok[4]); }
     else if (!strcmp(op, "sdefine")) { NEED(4); define_on("s", slot(tok[1], MAXSLOT), tok[2], tok[3], tok[4]); }
